@@ -8,5 +8,5 @@ CONSTANTS
   MaxKeys = 4
 INIT Init
 NEXT Next
-INVARIANT Inv
+INVARIANTS Inv Wire
 CHECK_DEADLOCK FALSE
